@@ -24,6 +24,10 @@ SAMPLE = {"IDENTIFIER": "foo", "HEX_NUMBER": "0x1", "DEC_NUMBER": "1", "INT_POST
           "SIGN_TYPE_INT": "int", "COMMON_FLOAT": "1.0", "COMMON_SIGNED_FLOAT": "-1.0"}
 
 
+# spellings of the terminals whose text the callbacks branch on
+VARIANTS = {"UNARY_OP": ("-", "~", "!", "+"), "ASSIGN_OP": ("=", "+=", "<<=")}
+
+
 # callbacks of the declaration machinery: their odd children (declarator / specifier trees, qualifier tokens) are rejected by
 # constructor-time checks of the IR nodes, which the node summaries do not model -> no D1 verdicts there
 DECL_MACHINERY = {"declaration", "init_declarator", "declaration_specifiers", "specifier_qualifier_list", "type_specifier"}
@@ -126,6 +130,8 @@ class KindEngine:
             owner = AObj("Hybrid", {}, label=label + ".owner", opaque=True)
             return r.pure(label, vt=mk_vt("t" + label, True, 32, ("PURE", "HYBRID_LVAR")), cls="LocalVar", hybrid_owner=owner, pending=True)
         if k == "T":
+            if len(d) > 2:
+                return Tok(d[1], d[2])
             lit = self.lit.get(d[1])
             return Tok(d[1], lit if lit is not None else SAMPLE.get(d[1], "tok"))
         if k == "S":
@@ -205,6 +211,9 @@ class KindEngine:
     # ------------------------------------------------------------------ evaluation
     def child_options(self, c):
         if c.kind == "term":
+            if c.name in VARIANTS and self.gm.literal(c.name) is None:
+                # a terminal with several spellings that the callbacks tell apart: one run per spelling
+                return {("T", c.name, v) for v in VARIANTS[c.name]}
             return {("T", c.name)}
         if c.kind == "none":
             return {("N",)}
@@ -273,7 +282,8 @@ class KindEngine:
     def _run_callback(self, alt, children, combo):
         name = str(alt.callback)
         key_alt = f"{alt.origin}#{alt.order}"
-        r = Runner(self.idx, summarised=Runner.SUMMARISED | self.EXTRA_SUMMARISED)
+        # (macro_expr gets a concrete macro table below: its argument check is interpreted, not summarised)
+        r = Runner(self.idx, summarised=(Runner.SUMMARISED | self.EXTRA_SUMMARISED) - ({"cast_arg_list"} if name == "macro_expr" else set()))
         r.fold = False  # constant folding is C09's subject; here literals behave like any other pure
         from rules.common import mk_vt
 
@@ -301,7 +311,15 @@ class KindEngine:
             return objs
 
         def self_over():
-            return {"il_ops_holder": AObj("ILOpsHolder", {"hybrid_effect_dict": pend, "hybrid_op_count": 9}, label="holder", opaque=True)}
+            over = {"il_ops_holder": AObj("ILOpsHolder", {"hybrid_effect_dict": pend, "hybrid_op_count": 9}, label="holder", opaque=True)}
+            if name == "macro_expr" and combo and combo[0][0] == "T":
+                # a registered macro whose parameters are of the laxest kind (external types are passed through unconverted): what the
+                # callback does with each argument kind is decided by the callback itself, not by an unknown macro table
+                from rules.common import mk_vt
+
+                tok = self.mk(r, combo[0], "name")
+                over["macros"] = {tok.value: AObj("Macro", {"param_types": [mk_vt(f"pt{i}", False, 64, ("EXTERNAL",)) for i in range(len(combo) - 1)], "name": tok.value}, label="macro", opaque=True)}
+            return over
 
         self.runs += 1
         try:
@@ -357,6 +375,13 @@ class KindEngine:
                                 yield y
                     elems = [id(y) for y in flat(obj) if isinstance(y, AObj)]
                     lost = not (ids & reached) or any(e_ not in reached for e_ in elems)
+                if not lost and combo[i][0] == "E" and rd[0] == "P" and isinstance(obj, AObj) and obj.cls not in self.pure_classes:
+                    # the effect became an operand of a VALUE node: values are read, never sequenced - the effect is declared at
+                    # best, but no sequence names it
+                    d = combo[i]
+                    k = f"{name}[{alt.origin}#{alt.order}: {alt.skeleton()}] child {i} (effect below a value)"
+                    f = self.findings.setdefault(k, Finding("D1", k, "an effect handed on as the operand of a value node: nothing sequences it", where))
+                    f.kinds = getattr(f, "kinds", set()) | {short(d)}
                 if lost:
                     d = combo[i]
                     k = f"{name}[{alt.origin}#{alt.order}: {alt.skeleton()}] child {i}"
